@@ -9,7 +9,8 @@
        other than by the negligibility test;  hence [termlist_eval_preserved];
        under "compare is total" (tol = 0, the exact form): nothing is ever merged or dropped;
     C. the justification of the list model: a search-tree descent by a predicate that is monotone
-       along the in-order sequence ends where the linear scan ends;
+       along the in-order sequence ends where the linear scan ends (find: [tree_find_is_list_find];
+       insert, its verdict and the blocking element it points to: [tree_insert_is_list_insert]);
     D. the instance over the real numbers. *)
 Require Import Bool List Arith Lia Ring Ring_theory.
 From PV Require Import TermList.
@@ -665,6 +666,70 @@ Corollary tree_find_is_list_find k t : sorted_sep P C comp (inorder t) ->
 Proof.
   intros Hs. rewrite tree_lower_bound_is_scan by (apply monotone_lower; exact Hs).
   unfold set_find. destruct (snd (scan P C _ (inorder t))); reflexivity.
+Qed.
+
+(** std::set::insert.  stl_tree.h _M_get_insert_unique_pos(k):
+      x = root; y = header; comp = true;
+      while (x != 0) { y = x; comp = compare(k, key(x)); x = comp ? left(x) : right(x); }
+      j = iterator(y);
+      if (comp) { if (j == begin()) return <insert at y>; else --j; }
+      if (compare(key(j), k)) return <insert at y>;
+      return <refused: the iterator returned by insert() points to j>;
+    The descent goes left where pred x = compare(k, key(x)) holds.  When it ends, j -- y itself if the last comparison was false,
+    the in-order predecessor of y otherwise, i.e. the deepest ancestor at which the descent went right -- is in both cases the
+    LAST node on the path with pred false, and `j == begin()` means there is none: [descend_last]. *)
+Fixpoint descend_last (pred : term -> bool) (t : tree) (j : option term) : option term :=
+  match t with
+  | Leaf => j
+  | Node l x r => if pred x then descend_last pred l j else descend_last pred r (Some x)
+  end.
+
+Lemma scan_fst_app_true pred (l r : list term) x : pred x = true ->
+  fst (scan P C pred (l ++ x :: r)) = fst (scan P C pred l).
+Proof.
+  intros Hx. induction l as [|y l IH]; cbn [app TermList.scan].
+  - rewrite Hx. reflexivity.
+  - destruct (pred y); cbn [fst]; [reflexivity|]. rewrite IH. reflexivity.
+Qed.
+
+Lemma scan_fst_all_false pred (l r : list term) :
+  (forall x, In x l -> pred x = false) -> fst (scan P C pred (l ++ r)) = l ++ fst (scan P C pred r).
+Proof.
+  induction l as [|x l IH]; intros H; [reflexivity|].
+  cbn [app TermList.scan]. rewrite (H x (or_introl eq_refl)). cbn [fst]. rewrite IH; [reflexivity|].
+  intros z Hz. apply H. right. exact Hz.
+Qed.
+
+(** for a predicate monotone along the in-order sequence the descent ends at the last element before the scan position,
+    whatever the shape of the tree *)
+Theorem tree_insert_pos_is_scan pred : forall t j, monotone pred (inorder t) ->
+  descend_last pred t j = match rev (fst (scan P C pred (inorder t))) with z :: _ => Some z | [] => j end.
+Proof.
+  induction t as [|l IHl x r IHr]; intros j M; [reflexivity|].
+  cbn [descend_last inorder]. cbn [inorder] in M. destruct (pred x) eqn:E.
+  - rewrite (scan_fst_app_true pred _ _ x E). apply IHl. apply (monotone_app_l _ _ _ M).
+  - assert (Hl : forall z, In z (inorder l) -> pred z = false).
+    { intros z Hz. destruct (pred z) eqn:Ez; [|reflexivity].
+      apply in_split in Hz. destruct Hz as [B [A Hz]].
+      rewrite <- E. symmetry. apply (M B z (A ++ x :: inorder r)); [|exact Ez|apply in_or_app; right; left; reflexivity].
+      rewrite Hz, <- app_assoc. reflexivity. }
+    rewrite (scan_fst_all_false pred _ _ Hl). cbn [TermList.scan]. rewrite E. cbn [fst].
+    rewrite rev_app_distr. cbn [rev]. rewrite <- app_assoc. cbn [app].
+    rewrite IHr by (apply (monotone_app_r pred (inorder l ++ [x])); rewrite <- app_assoc; exact M).
+    destruct (rev (fst (scan P C pred (inorder r)))); reflexivity.
+Qed.
+
+(** std::set::insert on any tree whose in-order sequence satisfies the invariant gives the verdict, and points to the blocking
+    element, of the model's set_insert_res *)
+Corollary tree_insert_is_list_insert (t0 : term) t : sorted_sep P C comp (inorder t) ->
+  match descend_last (fun x => comp (pole P C t0) (pole P C x)) t None with
+  | Some j => if comp (pole P C j) (pole P C t0) then None else Some j
+  | None => None
+  end = match set_insert_res P C comp t0 (inorder t) with Inserted _ => None | Blocked _ j _ => Some j end.
+Proof.
+  intros Hs. rewrite tree_insert_pos_is_scan by (apply monotone_upper; exact Hs).
+  unfold set_insert_res. destruct (rev (fst (scan P C _ (inorder t)))) as [|j rb]; [reflexivity|].
+  destruct (comp (pole P C j) (pole P C t0)); reflexivity.
 Qed.
 End Tree.
 
